@@ -26,7 +26,7 @@ plan('C06',
          Job('c06_jsondec', 'deep', 'asan', quick=60, thorough=600, shards=(2, 4), params=dict(dump=1)),
          Job('c06_jsondec', 'deep', 'plain', quick=60, thorough=600, shards=(1, 2)),
          Job('c06_jsondec', 'hostile_depth', 'asan', quick=48, thorough=96, shards=(2, 4), batch=1),
-         FuzzJob('fz_json', quick=150000, thorough=6000000, procs=(4, 12), max_len=512, dict_file='harness/fuzz/json.dict'),
+         FuzzJob('fz_json', quick=150000, thorough=2000000, procs=(4, 12), max_len=512, dict_file='harness/fuzz/json.dict'),
          Job('c06_jsondec', 'hostile_depth', 'plain', quick=48, thorough=96, shards=(2, 4), batch=1),
      ],
      post=post,
